@@ -26,6 +26,12 @@ Profile GetProfile(const std::string& name, bool thorough) {
     p.min_ops = 0; p.max_ops = 0; p.check_convergence = false; p.buggify = false; p.w_inflate_log = 0;
     return p;
   }
+  if (name == "C08T") {
+    // whole-program side of C08: the log tools from the command line, between ordinary builds
+    p.pm_cmd_fail = 40; p.pm_editor = 0; p.pm_tty = 0; p.w_restat_tool = 8; p.w_inflate_log = 3; p.w_manifest_edit = 2;
+    p.gen.features &= ~F_REGEN;
+    return p;
+  }
   if (name == "C03") {
     // no kills or interrupts: what is recorded is exactly what completed
     p.pm_cmd_fail = 40; p.pm_editor = 0; p.w_manifest_edit = 1; p.pm_tty = 100; p.w_inflate_log = 0;
@@ -1203,6 +1209,77 @@ struct Driver {
     DoBuild();
   }
 
+  // `ninja -t restat [outputs]` and `ninja -t recompact` from the command line (C08: "`-t restat`
+  // changes only the recorded mtimes"; recompaction keeps the latest record of everything
+  // that is still in the manifest).
+  void DoLogTool() {
+    if (!w.k.Exists("build.ninja")) { dead = true; return; }
+    bool restat = H(3) != 0;
+    InvPlan p;
+    p.stream = ST_INV0 + inv_index++;
+    p.j = -1;
+    p.tool.push_back(restat ? "restat" : "recompact");
+    std::vector<std::string> scope;
+    if (restat && H(2) == 0) scope = SomeTargets(2);
+    // (the restat tool runs before the manifest is loaded: it has to be told where the log is)
+    if (restat && !w.sc.builddir.empty()) p.tool.push_back("--builddir=" + w.sc.builddir);
+    for (auto& t : scope) p.tool.push_back(t);
+    Note(std::string("tool ") + (restat ? "restat" : "recompact") + [&]() { std::string s; for (auto& t : scope) s += " " + t; return s; }());
+    FsSnap before = Snap();
+    InvRecord r = w.RunInvocation(p);
+    Note(ResultText(r));
+    if (getenv("SIM_SHOW_OUTPUT")) Note("  stdout: " + r.res.out.substr(0, 2000) + "\n  stderr: " + r.res.err);
+    w.CheckTermination(r);
+    if (r.res.end != ProcResult::kExit) return;
+    rr.stats.n[restat ? "tool_restat" : "tool_recompact"]++;
+    rr.stats.nontrivial["C08"] = true;
+    std::string what = std::string("ninja -t ") + (restat ? "restat" : "recompact");
+    if (!r.spawns.empty()) w.Report("C08", "log_tool", what + " started " + std::to_string(r.spawns.size()) + " build commands");
+    FsSnap after = Snap();
+    for (auto& kv : before.files) {
+      if (IsLogPath(kv.first)) continue;
+      auto a = after.files.find(kv.first);
+      if (a == after.files.end()) w.Report("C08", "log_tool", what + " deleted " + kv.first);
+      else if (a->second != kv.second) w.Report("C08", "log_tool", what + " modified " + kv.first);
+    }
+    for (auto& kv : after.files) if (!before.files.count(kv.first) && !IsLogPath(kv.first)) w.Report("C08", "log_tool", what + " created " + kv.first);
+    if (r.res.exit_code != 0 || !r.log_before.valid_header || r.log_torn_tail_before || r.fault_fired) return;
+    std::set<std::string> declared;
+    for (const Stmt& s : w.sc.stmts) if (s.alive) for (auto& o : s.AllOuts()) declared.insert(o);
+    for (auto& kv : r.log_before.last) {
+      // recompaction may drop paths no statement declares; restat keeps every entry
+      if (!restat && !declared.count(kv.first)) continue;
+      auto a = r.log_after.last.find(kv.first);
+      if (a == r.log_after.last.end()) {
+        // K27: the restat tool runs without the manifest; when the log it rewrites is due for
+        // recompaction, "dead" is decided by the disk alone and the record of a declared output
+        // whose file is missing goes (harmless: a missing output is rebuilt anyway)
+        if (restat && declared.count(kv.first) && !w.k.Exists(kv.first))
+          w.Report("C08", "restat_recompaction_drops_missing_output", what + " dropped the record of " + kv.first + ", which the manifest still declares; its file is missing and the rewritten log was due for recompaction");
+        else
+          w.Report("C08", "log_tool", what + " dropped the record of " + kv.first);
+        continue;
+      }
+      if (a->second.hash != kv.second.hash || a->second.start != kv.second.start || a->second.end != kv.second.end)
+        w.Report("C08", "log_tool", what + " changed the command hash or times recorded for " + kv.first);
+      bool in_scope = restat && (scope.empty() || std::find(scope.begin(), scope.end(), kv.first) != scope.end());
+      int64_t want = in_scope ? (w.k.Exists(kv.first) ? w.k.Mtime(kv.first) : 0) : kv.second.mtime;
+      if (a->second.mtime != want)
+        w.Report("C08", "log_tool", what + " left mtime " + std::to_string(a->second.mtime) + " recorded for " + kv.first + ", expected " + std::to_string(want) + (in_scope ? " (the file's current mtime)" : " (unchanged: not in the tool's scope)"));
+    }
+    for (auto& kv : r.log_after.last) if (!r.log_before.last.count(kv.first)) w.Report("C08", "log_tool", what + " invented a record for " + kv.first);
+    if (r.deps_before.valid_header) {
+      for (auto& kv : r.deps_before.last) {
+        bool live = false;
+        for (const Stmt& s : w.sc.stmts) if (s.alive && s.deps_kind >= 2) for (auto& o : s.AllOuts()) if (o == kv.first) live = true;
+        if (!live) continue;
+        auto a = r.deps_after.last.find(kv.first);
+        if (a == r.deps_after.last.end() || a->second.mtime != kv.second.mtime || a->second.deps != kv.second.deps)
+          w.Report("C08", "log_tool", what + " changed the recorded dependencies of " + kv.first);
+      }
+    }
+  }
+
   // A restat statement is rebuilt on its own (target subset) after a real edit, then its
   // source is merely touched and everything is built: the command runs again, leaves its
   // output alone, and the pruning that follows must not take the statements behind that
@@ -1605,7 +1682,7 @@ struct Driver {
       if (i == 0 && H(8) != 0) { DoBuild(); continue; }
       int ws[] = {prof.w_build, prof.w_edit, prof.w_touch, prof.w_del_out, prof.w_change_cmd, prof.w_change_rsp,
                   prof.w_regen, prof.w_del_log, prof.w_del_depfile, prof.w_clean, prof.w_cleandead, prof.w_tool_ro,
-                  prof.w_dry, prof.w_manifest_edit, prof.w_edit_includes, prof.w_empty_source, prof.w_inflate_log, prof.w_include_churn, prof.w_block_dir, invalid_dyndep_run ? 6 : 0, prof.damage ? 8 : 0, prof.subset_then_touch ? 3 : 0};
+                  prof.w_dry, prof.w_manifest_edit, prof.w_edit_includes, prof.w_empty_source, prof.w_inflate_log, prof.w_include_churn, prof.w_block_dir, invalid_dyndep_run ? 6 : 0, prof.damage ? 8 : 0, prof.subset_then_touch ? 3 : 0, prof.w_restat_tool};
       int total = 0;
       for (int x : ws) total += x;
       int c = (int)H((uint32_t)total), op = 0;
@@ -1633,6 +1710,7 @@ struct Driver {
         case 19: DoInvalidDyndep(); break;
         case 20: DoDamage(); break;
         case 21: DoSubsetThenTouch(); break;
+        case 22: DoLogTool(); break;
       }
     }
     // histories end with a build so that every change is exercised
